@@ -956,11 +956,18 @@ def _fd_fsm_pre(o):
                 (eq(mode(h), ACK) if _is(o, NakPdu) else True))
 
 
-C("_sending_file_data_fsm", arg_types={**SELF, **HOLDER}, props=("C07", "C08"), result=T.Bool, setup=_holder_setup,
+C("_sending_file_data_fsm", arg_types={**SELF, **HOLDER}, props=("C07", "C08", "C13"), result=T.Bool, setup=_holder_setup,
   requires=REQ_INV + [("in_file_data_step", _fd_fsm_pre)],
   modifies=QMOD + ["self._params.fp.progress", "self.states.step", "self._params.ack_params.step_before_retransmission",
-                   "self._params.cond_code_eof"],
+                   "self._params.cond_code_eof", "self._params.check_timer"],
   ensures=[
+      # C13 (F27, repaired): a metadata-only transaction with closure in unacknowledged mode waits for the Finished PDU under the
+      # check timer, exactly like a file transfer after its EOF PDU; in every other case the timer is not touched
+      Clause("C13.src.metadata_only_closure_arms_check_timer", lambda o, n, r: (True if _is(o, NakPdu) else And_(
+          Implies_(And_(B(o.self._params.fp.metadata_only), B(o.self._params.closure_requested), eq(mode(o.self), UNACK)),
+                   opt(n.self._params.check_timer, lambda t: Not_(B(t.expired)), False)),
+          Implies_(Not_(And_(B(o.self._params.fp.metadata_only), B(o.self._params.closure_requested), eq(mode(o.self), UNACK))),
+                   same_obj(n.self._params.check_timer, o.self._params.check_timer)))), ("C13", "C02")),
       Clause("C07.one_file_data_pdu_per_call", lambda o, n, r: (True if (_is(o, NakPdu)) else And_(
           Implies_(And_(Not_(B(o.self._params.fp.metadata_only)), o.self._params.fp.progress < val(o.self._params.fp.file_size)),
                    And_(qlen(n.self) == 1, n.self._params.fp.progress > o.self._params.fp.progress,
@@ -970,16 +977,18 @@ C("_sending_file_data_fsm", arg_types={**SELF, **HOLDER}, props=("C07", "C08"), 
       Clause("C02.empty_and_metadata_only_files", lambda o, n, r: (True if _is(o, NakPdu) else And_(
           Implies_(B(o.self._params.fp.empty_file), And_(step_is(n.self, STEP.SENDING_EOF),
                    opt(n.self._params.cond_code_eof, lambda c: eq(c, CC.NO_ERROR), False))),
+          # (F25, repaired: in acknowledged mode the receiver always sends a Finished PDU that wants its ACK, closure or not)
           Implies_(B(o.self._params.fp.metadata_only), And_(
-              Implies_(B(o.self._params.closure_requested), step_is(n.self, STEP.WAITING_FOR_FINISHED)),
-              Implies_(Not_(B(o.self._params.closure_requested)), step_is(n.self, STEP.NOTICE_OF_COMPLETION)))))), ("C02", "C07")),
+              Implies_(Or_(B(o.self._params.closure_requested), eq(mode(o.self), ACK)), step_is(n.self, STEP.WAITING_FOR_FINISHED)),
+              Implies_(And_(Not_(B(o.self._params.closure_requested)), eq(mode(o.self), UNACK)),
+                       step_is(n.self, STEP.NOTICE_OF_COMPLETION)))))), ("C02", "C07")),
       Clause("C08.nak_serviced_while_sending", lambda o, n, r: (And_(
           step_is(n.self, STEP.RETRANSMITTING), Eq_(n.self._params.fp.progress, o.self._params.fp.progress))
           if _is(o, NakPdu) else True), ("C08",)),
   ] + inv_clauses(("C07",)),
   raises=[RaiseClause("C08.invalid_nak", X.InvalidNakPdu, when=lambda o: _is(o, NakPdu), props=("C08", "C10"), modifies=QMOD,
                       post=lambda o, n: inv_formula(n.self))],
-  effects={"vfs"}, modular=False)
+  effects={"vfs", "timer"}, modular=False)
 for _c in CONTRACTS:
     if _c.fq.endswith("._sending_file_data_fsm") or _c.fq.endswith("._handle_wait_for_finish"):
         _c.cost_hint = 4
